@@ -4,6 +4,8 @@ Helper lemmas for C20 (file part): splitting on '\n', `lastIdxNL`, `trim`, and t
 -/
 import ShpanVerif.Model.FileScan
 
+
+set_option autoImplicit false
 namespace ShpanVerif.Proofs.FileScan
 open List ShpanVerif.Model.FileScan
 
